@@ -140,7 +140,8 @@ func isLenOf(v ssa.Value, x ssa.Value) bool {
 		return false
 	}
 	b, ok := call.Call.Value.(*ssa.Builtin)
-	return ok && b.Name() == "len" && call.Call.Args[0] == x
+	// also through a local that only ever holds x (a parameter captured by an inlined helper)
+	return ok && b.Name() == "len" && (call.Call.Args[0] == x || carriesOnly(call.Call.Args[0], x))
 }
 
 func r08_1(c *Ctx) { putShape(c, "FiniteReplayer") }
@@ -306,6 +307,17 @@ func r08_2(c *Ctx) {
 			cnt = p
 		}
 	}
+	if m != nil && cnt == nil {
+		// a counter of another integer type: narrower than 64 bits it wraps and IDs are issued twice
+		for _, p := range fn.Params {
+			if pt, ok := p.Type().Underlying().(*types.Pointer); ok {
+				if b, ok := pt.Elem().Underlying().(*types.Basic); ok && b.Info()&types.IsInteger != 0 {
+					c.bad(fnLabel(fn)+":counter-width", P.pos(p.Pos()), "the automatic-ID counter is a "+b.Name()+", not a uint64: it wraps (or goes negative) within reach, so an ID that is still buffered or was already handed to clients is issued again")
+					return
+				}
+			}
+		}
+	}
 	if m == nil || cnt == nil {
 		c.anchor("ensureID's message and counter parameters")
 		return
@@ -456,7 +468,7 @@ func r08_2(c *Ctx) {
 		if !inSSEPackage(f) {
 			continue
 		}
-		eachInstrDeep(f, func(in ssa.Instruction) {
+		eachInstr(f, func(in ssa.Instruction) {
 			st, ok := in.(*ssa.Store)
 			if !ok {
 				return
@@ -475,8 +487,23 @@ func r08_2(c *Ctx) {
 				continue
 			}
 			st := a.Use.(*ssa.Store)
-			al, ok := st.Val.(*ssa.Alloc)
-			c.check(ok && al.Heap, fnLabel(a.Fn)+":counter-init("+owner+")", P.ipos(st), "the counter starts as new(uint64) (0)", "the counter is not initialised with new(uint64): automatic IDs do not start at 0")
+			// every origin of the stored pointer is a fresh new(uint64) (0) or nil (manual IDs)
+			ok, some := true, false
+			for _, sv := range sources(st.Val) {
+				if isNilConst(sv) {
+					continue
+				}
+				if al, isAl := sv.(*ssa.Alloc); isAl && al.Heap && deref(al.Type()).String() == "uint64" {
+					// never written before it is installed: still 0
+					_, stores, _ := cellStores(al)
+					if len(stores) == 0 {
+						some = true
+						continue
+					}
+				}
+				ok = false
+			}
+			c.check(ok && some, fnLabel(a.Fn)+":counter-init("+owner+")", P.ipos(st), "the counter starts as new(uint64) (0)", "the counter is not initialised with new(uint64): automatic IDs do not start at 0")
 		}
 	}
 }
@@ -609,6 +636,39 @@ func replayShape(c *Ctx, only string) {
 			c.undecided(name+":shape", P.pos(fn.Pos()), "Replay does not have the findIDInQueue / each(callback) shape")
 			continue
 		}
+		// Replay only reads the buffer: a collection, resize or enqueue between the lookup and the iteration
+		// moves the elements and leaves the looked-up index pointing somewhere else
+		{
+			reach := P.reachNoGo(fn)
+			var w ssa.Instruction
+			var wf *ssa.Function
+			for _, g := range P.Funcs {
+				if !reach[g] || !inSSEPackage(g) {
+					continue
+				}
+				eachInstr(g, func(in ssa.Instruction) {
+					st, ok := in.(*ssa.Store)
+					if !ok || w != nil {
+						return
+					}
+					for _, fld := range []string{"head", "tail", "count", "buf"} {
+						if _, ok := isFieldSel(st.Addr, "queue", fld); ok {
+							w, wf = st, g
+						}
+					}
+					if ia, ok := rootIndexAddr(st.Addr); ok {
+						if _, ok := isFieldLoad(ia.X, "queue", "buf"); ok {
+							w, wf = st, g
+						}
+					}
+				})
+			}
+			if w != nil {
+				c.bad(name+":read-only", P.ipos(w), "Replay reaches "+fnLabel(wf)+", which modifies the buffer: the index found for the presented ID is stale when the iteration starts (the presented event is replayed again, or later ones are skipped)")
+			} else {
+				c.ok(name+":read-only", P.pos(fn.Pos()), "no function reachable from Replay writes the queue")
+			}
+		}
 		// each starts at findIDInQueue's result; lookup uses the subscription's LastEventID and this replayer's mode
 		c.check(len(rp.each.Call.Args) == 2 && rp.each.Call.Args[1] == ssa.Value(rp.find), name+":start-index", P.ipos(rp.each), "iteration starts at the index findIDInQueue returned", "the iteration does not start at the index returned for the presented ID")
 		idOK := false
@@ -712,7 +772,7 @@ func replayShape(c *Ctx, only string) {
 			}
 		}
 		mOK = mOK && len(msrc) > 0
-		_, rOK := isFieldLoad(send.Common().Value, "Subscription", "Client")
+		rOK := isSubscriptionClient(send.Common().Value)
 		c.check(mOK && rOK, name+":callback-send-args", P.ipos(send), "the element's message is sent to the subscription's client", "the callback does not send the current element's message to the subscription's client")
 		// Send error: stored in the shared err cell, callback returns false on error, true otherwise
 		sv := send.Value()
@@ -736,12 +796,29 @@ func replayShape(c *Ctx, only string) {
 			for _, s := range sources(ret.Results[0]) {
 				b, isC := constBool(s)
 				if !isC {
+					// `return err == nil`: true exactly when the Send succeeded
+					if bo, ok := s.(*ssa.BinOp); ok && bo.Op == token.EQL && ((isSendErr(bo.X) && isNilConst(bo.Y)) || (isSendErr(bo.Y) && isNilConst(bo.X))) {
+						continue
+					}
 					retOK = false
 					continue
 				}
 				onErr := guardedByNil(cb, ret.Block(), isSendErr, false)
 				if b == onErr {
 					retOK = false
+				}
+				if b {
+					// "continue" after a Send only when that Send succeeded: no path from the Send to this
+					// return avoids the err == nil edge
+					okEdges := map[cfgEdge]bool{}
+					for _, ifi := range ifsIn(cb) {
+						if sN, ok := nilEdge(ifi, isSendErr); ok {
+							okEdges[cfgEdge{ifi.Block(), sN}] = true
+						}
+					}
+					if si, ok := send.(ssa.Instruction); ok && reachesAvoidingLocal(afterInstr(si), ret, nil, okEdges) {
+						retOK = false
+					}
 				}
 			}
 		}
@@ -772,7 +849,7 @@ func replayShape(c *Ctx, only string) {
 			}
 		}
 		if rp.flush != nil {
-			if _, ok := isFieldLoad(rp.flush.Common().Value, "Subscription", "Client"); !ok {
+			if !isSubscriptionClient(rp.flush.Common().Value) {
 				tailOK = false
 			}
 		}
@@ -795,7 +872,7 @@ func r08_4(c *Ctx) {
 			continue
 		}
 		yield := fn.Params[0]
-		eachInstrDeep(fn, func(in ssa.Instruction) {
+		eachInstr(fn, func(in ssa.Instruction) {
 			call, ok := in.(*ssa.Call)
 			if !ok || call.Call.Value != ssa.Value(yield) {
 				return
@@ -838,6 +915,155 @@ func r08_4(c *Ctx) {
 	if n == 0 {
 		c.anchor("queue.each iterator body")
 	}
+	// the ranges visited: [startAt, tail) when startAt < tail, else [startAt, len(buf)) and then [0, tail)
+	for _, fn := range P.Funcs {
+		par := fn.Parent()
+		if par == nil || par.Name() != "each" || par.Signature.Recv() == nil || !typeIs(par.Signature.Recv().Type(), "sse", "queue") || len(par.Params) != 2 {
+			continue
+		}
+		name := fnLabel(fn) + ":ranges"
+		isStart := func(v ssa.Value) bool { return carriesOnly(v, par.Params[1]) }
+		isTail := func(v ssa.Value) bool { _, ok := isFieldLoad(v, "queue", "tail"); return ok }
+		isLenBuf := func(v ssa.Value) bool {
+			call, ok := v.(*ssa.Call)
+			if !ok {
+				return false
+			}
+			b, ok := call.Call.Value.(*ssa.Builtin)
+			if !ok || b.Name() != "len" {
+				return false
+			}
+			_, ok = isFieldLoad(call.Call.Args[0], "queue", "buf")
+			return ok
+		}
+		describe := func(v ssa.Value) string {
+			switch {
+			case isStart(v):
+				return "startAt"
+			case isTail(v):
+				return "tail"
+			case isLenBuf(v):
+				return "len(buf)"
+			}
+			if k, ok := constInt(v); ok && k == 0 {
+				return "0"
+			}
+			if _, ok := isFieldLoad(v, "queue", "head"); ok {
+				return "head"
+			}
+			if _, ok := isFieldLoad(v, "queue", "count"); ok {
+				return "count"
+			}
+			return "?"
+		}
+		type rng struct {
+			from, to string
+			head     *ssa.BasicBlock
+		}
+		var rs []rng
+		shapeOK := true
+		for _, l := range loopsOf(fn) {
+			var ind *ssa.Phi
+			for _, in := range l.Head.Instrs {
+				if phi, ok := in.(*ssa.Phi); ok {
+					for _, e := range phi.Edges {
+						if b, ok := e.(*ssa.BinOp); ok && b.Op == token.ADD && b.X == ssa.Value(phi) {
+							if k, ok := constInt(b.Y); ok && k == 1 {
+								ind = phi
+							}
+						}
+					}
+				}
+			}
+			if ind == nil || len(l.Head.Instrs) == 0 {
+				shapeOK = false
+				continue
+			}
+			ifi, ok := l.Head.Instrs[len(l.Head.Instrs)-1].(*ssa.If)
+			if !ok {
+				shapeOK = false
+				continue
+			}
+			cnd := decodeIf(ifi)
+			if cnd.Y == nil || cnd.Op != token.LSS || cnd.X != ssa.Value(ind) || !l.Blocks[l.Head.Succs[cnd.succWhen(true)]] {
+				shapeOK = false
+				continue
+			}
+			from := "?"
+			for i, e := range ind.Edges {
+				if !l.Blocks[l.Head.Preds[i]] {
+					from = describe(e)
+				}
+			}
+			rs = append(rs, rng{from, describe(cnd.Y), l.Head})
+		}
+		if !shapeOK || len(rs) == 0 {
+			c.ok(name, P.pos(fn.Pos()), "not decided: the iteration is not written as counted `for i := a; i < b; i++` loops")
+			continue
+		}
+		got := ""
+		for _, r := range rs {
+			got += " [" + r.from + "," + r.to + ")"
+		}
+		knownWrong := false
+		for _, r := range rs {
+			if r.to == "head" || r.to == "count" || r.from == "head" || r.from == "count" || r.from == "tail" {
+				knownWrong = true
+			}
+		}
+		good := len(rs) == 3
+		var direct, upper, lower *rng
+		for i := range rs {
+			switch {
+			case rs[i].from == "startAt" && rs[i].to == "tail":
+				direct = &rs[i]
+			case rs[i].from == "startAt" && rs[i].to == "len(buf)":
+				upper = &rs[i]
+			case rs[i].from == "0" && rs[i].to == "tail":
+				lower = &rs[i]
+			}
+		}
+		good = good && direct != nil && upper != nil && lower != nil
+		if !good && !knownWrong {
+			c.ok(name, P.pos(fn.Pos()), "not decided: the iteration is written with other ranges than the canonical three (found:"+got+")")
+			continue
+		}
+		if good {
+			// the direct range under startAt < tail, the wrapped pair under its negation, upper before lower
+			g1 := factGuards(fn, direct.head, factEdgesOfCompare(fn, isStart, isTail, true))
+			g2 := factGuards(fn, upper.head, factEdgesOfCompare(fn, isStart, isTail, false))
+			good = g1 && g2 && upper.head.Dominates(lower.head) && !lower.head.Dominates(upper.head)
+		}
+		c.check(good, name, P.pos(fn.Pos()), "visits [startAt, tail) when startAt < tail, else [startAt, len(buf)) and then [0, tail)",
+			"the iteration does not visit exactly the occupied slots from startAt to tail (ranges found:"+got+"): on a wrapped ring that is not full it walks into empty slots or stops early")
+	}
+}
+
+// factEdgesOfCompare: the fact established by the branch edges on which `a < b` holds (want) or fails (!want),
+// for the comparison of a value satisfying isA with one satisfying isB.
+func factEdgesOfCompare(fn *ssa.Function, isA, isB func(ssa.Value) bool, want bool) fact {
+	var es []cfgEdge
+	for _, ifi := range ifsIn(fn) {
+		cnd := decodeIf(ifi)
+		if cnd.Y == nil {
+			continue
+		}
+		op := cnd.Op
+		switch {
+		case isA(cnd.X) && isB(cnd.Y):
+		case isB(cnd.X) && isA(cnd.Y):
+			op = flipOp(op)
+		default:
+			continue
+		}
+		switch op {
+		case token.LSS:
+			es = append(es, cfgEdge{ifi.Block(), cnd.succWhen(want)})
+		case token.GEQ:
+			es = append(es, cfgEdge{ifi.Block(), cnd.succWhen(!want)})
+		}
+	}
+	return factEdges(es...)
 }
 
 // ---------------------------------------------------------------------------
@@ -967,6 +1193,40 @@ func r09_2(c *Ctx) {
 		}
 	})
 	c.check(gcOK && nGC >= 2, name+":gc-now", P.pos(fn.Pos()), "shouldGC/doGC receive the same now", "the GC decision/collection does not use this Put's now")
+	// every collection, wherever it is started (the exported GC as well), measures expiry on the replayer's
+	// own clock - the one the stamps were taken from
+	inPut := map[*ssa.Function]bool{}
+	for _, g := range regionFuncs(fn) {
+		inPut[g] = true
+	}
+	for _, f := range P.Funcs {
+		if inPut[f] || f.Synthetic != "" {
+			continue // Put's own collection (also inside an inlined helper) is decided by gc-now above
+		}
+		eachInstr(f, func(in ssa.Instruction) {
+			call, ok := isModCall(in, "(*ValidReplayer).doGC")
+			if !ok {
+				return
+			}
+			good := true
+			src := sources(call.Call.Args[1])
+			if len(src) == 0 {
+				src = []ssa.Value{call.Call.Args[1]}
+			}
+			for _, sv := range src {
+				nc, isC := sv.(*ssa.Call)
+				if !isC || nc.Call.StaticCallee() != nil || nc.Call.IsInvoke() {
+					good = false
+					continue
+				}
+				b, isNow := isFieldLoad(nc.Call.Value, "ValidReplayer", "Now")
+				if !isNow || !carriesOnly(b, call.Call.Args[0]) && b != call.Call.Args[0] {
+					good = false
+				}
+			}
+			c.check(good, fnLabel(f)+":gc-clock", P.ipos(call), "the collection is given the replayer's own v.Now()", "a collection is run with a time that is not the replayer's v.Now() (the clock the expiry stamps were taken from): with an injected clock unexpired events are dropped, or expired ones kept")
+		})
+	}
 	// ttl is only written by the constructor, with the validated positive parameter
 	for _, a := range P.fieldAccesses("ValidReplayer", "ttl") {
 		if a.Kind != "write" {
@@ -977,12 +1237,8 @@ func r09_2(c *Ctx) {
 		good := isP
 		if good {
 			good = false
-			for _, ifi := range ifsIn(a.Fn) {
-				op, k, succ, ok := cmpConstEdge(ifi, func(v ssa.Value) bool { return v == ssa.Value(p) })
-				if ok && k == 0 && ((op == token.LEQ && edgeDominates(ifi.Block(), 1-succ, st.Block())) || (op == token.GTR && edgeDominates(ifi.Block(), succ, st.Block()))) {
-					good = true
-				}
-			}
+			// any integer comparison that establishes ttl >= 1 on the way to the store (ttl <= 0, ttl < 1, ttl > 0, …)
+			good = intGuard(a.Fn, st.Block(), func(v ssa.Value) bool { return v == ssa.Value(p) }, negInf, 1, posInf)
 		}
 		c.check(good, fnLabel(a.Fn)+":ttl-write", P.ipos(st), "ttl is set from the constructor's parameter under ttl > 0", "ttl is written without the positive-TTL check")
 	}
@@ -1001,7 +1257,7 @@ func r09_3(c *Ctx) {
 				nowP = p
 			}
 		}
-		eachInstrDeep(fn, func(in ssa.Instruction) {
+		eachInstr(fn, func(in ssa.Instruction) {
 			dq := isQueueCall(in, "dequeue")
 			if dq == nil {
 				return
@@ -1206,7 +1462,7 @@ func r18_1(c *Ctx) {
 		if !inSSEPackage(fn) {
 			continue
 		}
-		eachInstrDeep(fn, func(in ssa.Instruction) {
+		eachInstr(fn, func(in ssa.Instruction) {
 			st, ok := in.(*ssa.Store)
 			if !ok {
 				return
@@ -1228,7 +1484,7 @@ func r18_1(c *Ctx) {
 	}
 	// append to queue.buf anywhere?
 	for _, fn := range P.Funcs {
-		eachInstrDeep(fn, func(in ssa.Instruction) {
+		eachInstr(fn, func(in ssa.Instruction) {
 			if call, ok := isBuiltin(in, "append"); ok {
 				if _, ok := isFieldLoad(call.Common().Args[0], "queue", "buf"); ok {
 					c.bad(fnLabel(fn)+":append(queue.buf)", P.ipos(in), "queue.buf is appended to: the buffer can grow")
@@ -1337,12 +1593,18 @@ func r18_2(c *Ctx) {
 	if zero == nil {
 		c.bad(name+":zero-slot", P.pos(fn.Pos()), "dequeue does not store the zero value into buf[head]: the collected message stays reachable from the buffer")
 	} else {
-		okOrder := len(moves) > 0
+		// only the read index matters for which slot is cleared; the count may be updated on either side
+		okOrder, headMoves := len(moves) > 0, 0
 		for _, m := range moves {
+			if _, n, _, _ := fieldSel(m.Addr); n != "head" {
+				continue
+			}
+			headMoves++
 			if !instrDominates(zero, m) {
 				okOrder = false
 			}
 		}
+		okOrder = okOrder && headMoves > 0
 		c.check(okOrder, name+":zero-slot", P.ipos(zero), "buf[head] is zeroed before head/count move", "head/count are updated before (or without) zeroing buf[head]: a different slot is cleared")
 	}
 	// count decremented only in dequeue (and rewritten nowhere except enqueue's increment)
@@ -1351,6 +1613,11 @@ func r18_2(c *Ctx) {
 			continue
 		}
 		st := a.Use.(*ssa.Store)
+		if _, same := isFieldLoad(st.Val, "queue", "count"); same {
+			// the count is carried over unchanged (a rebuilt queue value, e.g. `*q = queue[T]{…, count: q.count}`)
+			c.ok(fnLabel(a.Fn)+":count-write", P.ipos(st), "count is carried over unchanged")
+			continue
+		}
 		b, ok := st.Val.(*ssa.BinOp)
 		good := ok
 		if good {
@@ -1542,7 +1809,7 @@ func r19_1(c *Ctx) {
 			continue
 		}
 		n++
-		eachInstrDeep(fn, func(in ssa.Instruction) {
+		eachInstr(fn, func(in ssa.Instruction) {
 			var addr ssa.Value
 			switch x := in.(type) {
 			case *ssa.Store:
@@ -1666,6 +1933,54 @@ func r19_2(c *Ctx) {
 			}
 		}
 	}
+	// every field of the clone is taken from the same field of the original
+	if o := P.SSE.Pkg.Scope().Lookup("Message"); o != nil {
+		st := o.Type().Underlying().(*types.Struct)
+		copied := map[string]bool{}
+		eachInstrDeep(fn, func(in ssa.Instruction) {
+			s2, ok := in.(*ssa.Store)
+			if !ok {
+				return
+			}
+			_, n, b, ok := fieldSel(s2.Addr)
+			if !ok {
+				return
+			}
+			if _, isAlloc := b.(*ssa.Alloc); !isAlloc || !typeIs(b.Type(), "sse", "Message") {
+				return
+			}
+			for _, sv := range append(sources(s2.Val), s2.Val) {
+				x := sv
+				if sl, isSl := x.(*ssa.Slice); isSl {
+					x = sl.X
+				}
+				if call, isC := x.(*ssa.Call); isC && len(call.Call.Args) > 0 {
+					x = call.Call.Args[len(call.Call.Args)-1] // slices.Clone(e.chunks), append(nil, e.chunks...)
+				}
+				if rb, ok := isFieldLoad(x, "Message", n); ok && rb == ssa.Value(fn.Params[0]) {
+					copied[n] = true
+				}
+			}
+		})
+		missing := ""
+		for i := 0; i < st.NumFields(); i++ {
+			if !copied[st.Field(i).Name()] {
+				missing += " " + st.Field(i).Name()
+			}
+		}
+		// a whole-struct copy (`c := *e`) copies everything
+		whole := false
+		eachInstrDeep(fn, func(in ssa.Instruction) {
+			if s2, ok := in.(*ssa.Store); ok {
+				if ld, ok := s2.Val.(*ssa.UnOp); ok && ld.Op == token.MUL && ld.X == ssa.Value(fn.Params[0]) {
+					if _, isAlloc := s2.Addr.(*ssa.Alloc); isAlloc {
+						whole = true
+					}
+				}
+			}
+		})
+		c.check(missing == "" || whole, name+":copies-every-field", P.pos(fn.Pos()), "the clone takes every field of Message from the original", "Clone does not copy the field(s)"+missing+": the copy Put stores and publishes differs from the caller's message")
+	}
 	c.check(capped, name+":chunks-capped", P.pos(fn.Pos()), "the clone's chunks are a three-index slice with max == high (the first append reallocates) or a fresh copy",
 		"Clone shares the chunks backing array without capping it: appending to the clone (or the original) can overwrite the other's chunks")
 	// every other field copied by value; type walk
@@ -1695,7 +2010,7 @@ func r19_2(c *Ctx) {
 	// no in-place edit of a chunks element anywhere in the module
 	n := 0
 	for _, f := range P.Funcs {
-		eachInstrDeep(f, func(in ssa.Instruction) {
+		eachInstr(f, func(in ssa.Instruction) {
 			st, ok := in.(*ssa.Store)
 			if !ok {
 				return
@@ -1718,8 +2033,52 @@ func r19_2(c *Ctx) {
 			}
 		})
 	}
+	// ... nor through a builtin or library call that writes the elements of its slice argument
+	isChunksView := func(v ssa.Value) bool {
+		for _, x := range append(sources(v), v) {
+			for {
+				if sl, ok := x.(*ssa.Slice); ok {
+					x = sl.X
+					continue
+				}
+				break
+			}
+			if _, ok := isFieldLoad(x, "Message", "chunks"); ok {
+				return true
+			}
+		}
+		return false
+	}
+	inPlace := map[string]bool{"slices.Reverse": true, "slices.Sort": true, "slices.SortFunc": true, "slices.SortStableFunc": true, "slices.Delete": true, "slices.DeleteFunc": true,
+		"slices.Insert": true, "slices.Compact": true, "slices.CompactFunc": true, "slices.Replace": true, "sort.Slice": true, "sort.SliceStable": true}
+	for _, f := range P.Funcs {
+		eachInstr(f, func(in ssa.Instruction) {
+			ci, ok := in.(ssa.CallInstruction)
+			if !ok || len(ci.Common().Args) == 0 {
+				return
+			}
+			cc := ci.Common()
+			writes := false
+			if b, isB := cc.Value.(*ssa.Builtin); isB && (b.Name() == "clear" || b.Name() == "copy") {
+				writes = true
+			}
+			if callee := cc.StaticCallee(); callee != nil {
+				nm := callee.String()
+				if o := callee.Origin(); o != nil {
+					nm = o.String()
+				}
+				if inPlace[nm] {
+					writes = true
+				}
+			}
+			if writes && isChunksView(cc.Args[0]) {
+				n++
+				c.bad(fnLabel(f)+":in-place-chunk-edit", P.ipos(in), "the chunks of a Message are overwritten in place (clear/copy/in-place slice operation): the caller's message and every clone sharing the backing array lose or change their content")
+			}
+		})
+	}
 	if n == 0 {
-		c.ok("module:no-in-place-chunk-edit", "-", "no store in the module writes through an index into a Message's chunks")
+		c.ok("module:no-in-place-chunk-edit", "-", "no store, clear, copy or in-place slice operation in the module writes the elements of a Message's chunks")
 	}
 	// chunks writers: append results or nil only
 	for _, a := range P.fieldAccesses("Message", "chunks") {
@@ -1727,14 +2086,7 @@ func r19_2(c *Ctx) {
 			continue
 		}
 		st := a.Use.(*ssa.Store)
-		good := isNilConst(st.Val)
-		if call, ok := st.Val.(*ssa.Call); ok {
-			if b, ok := call.Call.Value.(*ssa.Builtin); ok && b.Name() == "append" {
-				if _, ok := isFieldLoad(call.Call.Args[0], "Message", "chunks"); ok {
-					good = true
-				}
-			}
-		}
+		good := isNilConst(st.Val) || grownFromChunks(st.Val, map[ssa.Value]bool{}, 0)
 		c.check(good, fnLabel(a.Fn)+":write(Message.chunks)", P.ipos(st), "chunks only grow by append or are reset to nil", "Message.chunks is assigned something other than append(e.chunks, ...) or nil")
 	}
 }
@@ -1891,6 +2243,67 @@ func r18_5(c *Ctx) {
 	}
 	if !decided {
 		c.ok(fnLabel(fn)+":wrapped-copy-order", P.pos(fn.Pos()), "resize does not use the two-copy idiom: order preservation is not decided by this rule")
+	}
+	// the piece buf[:tail] is skipped only where head < tail strictly: a full ring has head == tail and its
+	// elements before the write index must be copied too (opportunistic: only when resize copies buf[:tail]
+	// under a comparison of head and tail)
+	var tailCopy *ssa.Call
+	eachInstrDeep(fn, func(in ssa.Instruction) {
+		call, ok := in.(*ssa.Call)
+		if !ok {
+			return
+		}
+		if b, ok := call.Call.Value.(*ssa.Builtin); !ok || b.Name() != "copy" {
+			return
+		}
+		if sl, ok := call.Call.Args[1].(*ssa.Slice); ok && sl.Low == nil && isFld(sl.High, "tail") {
+			if _, ok := isFieldLoad(sl.X, "queue", "buf"); ok {
+				tailCopy = call
+			}
+		}
+	})
+	if tailCopy != nil {
+		verdict := ""
+		for _, ifi := range ifsIn(fn) {
+			cnd := decodeIf(ifi)
+			if cnd.Y == nil {
+				continue
+			}
+			x, y, op := cnd.X, cnd.Y, cnd.Op
+			if isFld(x, "tail") && isFld(y, "head") {
+				x, y, op = y, x, flipOp(op)
+			}
+			if !isFld(x, "head") || !isFld(y, "tail") {
+				continue
+			}
+			// op relates head ? tail; find the edge that skips the tail copy
+			for e := 0; e < 2; e++ {
+				if edgeDominates(ifi.Block(), e, tailCopy.Block()) {
+					continue
+				}
+				if !edgeDominates(ifi.Block(), 1-e, tailCopy.Block()) {
+					continue // this comparison does not decide the tail copy
+				}
+				// relation established on the skipping edge e
+				rel := op
+				if e != cnd.succWhen(true) {
+					rel = map[token.Token]token.Token{token.LSS: token.GEQ, token.LEQ: token.GTR, token.GTR: token.LEQ, token.GEQ: token.LSS, token.EQL: token.NEQ, token.NEQ: token.EQL}[op]
+				}
+				if rel == token.LSS {
+					verdict = "ok"
+				} else if verdict == "" {
+					verdict = "head " + rel.String() + " tail"
+				}
+			}
+		}
+		switch verdict {
+		case "ok":
+			c.ok(fnLabel(fn)+":wrapped-copy-guard", P.ipos(tailCopy), "buf[:tail] is skipped only where head < tail")
+		case "":
+			c.ok(fnLabel(fn)+":wrapped-copy-guard", P.ipos(tailCopy), "not decided: the copy of buf[:tail] is not governed by a comparison of head and tail")
+		default:
+			c.bad(fnLabel(fn)+":wrapped-copy-guard", P.ipos(tailCopy), "the copy of buf[:tail] is skipped where only "+verdict+" is known: a full ring (head == tail > 0) loses the elements stored before the write index when it is resized")
+		}
 	}
 }
 
@@ -2087,6 +2500,25 @@ func lookupProtocol(fn *ssa.Function, depth int) (map[*ssa.Return]*protoVerdict,
 							mark(cnd.X, "neg1")
 						}
 					}
+					// the same sentinel test written as a sign test (i < 0, !(i >= 0), i <= -1, !(i > -1)): the
+					// callers treat every negative result as "nothing to replay"
+					if k, ok := constInt(cnd.Y); ok && cnd.Y != nil {
+						negWhen := -1
+						switch {
+						case cnd.Op == token.LSS && k == 0, cnd.Op == token.LEQ && k == -1:
+							negWhen = cnd.succWhen(true)
+						case cnd.Op == token.GEQ && k == 0, cnd.Op == token.GTR && k == -1:
+							negWhen = cnd.succWhen(false)
+						}
+						if negWhen == idx {
+							ns.neg[cnd.X] = true
+							if a, ok := loadedFrom(cnd.X); ok {
+								if al, ok := cellRoot(a).(*ssa.Alloc); ok && a == ssa.Value(al) {
+									ns.cell[al] = "neg1"
+								}
+							}
+						}
+					}
 					walk(b.Succs[idx], b, ns, depthW+1)
 				}
 				return
@@ -2221,7 +2653,13 @@ func r18_6(c *Ctx) {
 		n++
 		st := a.Use.(*ssa.Store)
 		name := fnLabel(a.Fn) + ":write(lastGC)"
-		if a.Fn != fn {
+		inRegion := false
+		for _, rf := range regionFuncs(fn) {
+			if a.Fn == rf {
+				inRegion = true
+			}
+		}
+		if !inRegion {
 			c.bad(name, P.ipos(st), "lastGC is written outside ValidReplayer.Put")
 			continue
 		}
@@ -2240,6 +2678,28 @@ func r18_6(c *Ctx) {
 	}
 	if n == 0 {
 		c.bad(fnLabel(fn)+":write(lastGC)", P.pos(fn.Pos()), "lastGC is never advanced: every Put after GCInterval runs a collection")
+	}
+	// the initialisation of the GC clock does not depend on the interval setting: with GCInterval == 0 (manual
+	// collection) the clock must still start, or enabling the interval later postpones the first collection
+	for _, a := range P.fieldAccesses("ValidReplayer", "lastGC") {
+		if a.Kind != "write" {
+			continue
+		}
+		st := a.Use.(*ssa.Store)
+		isZeroG := factGuards(fn, st.Block(), factBool(func(v ssa.Value) bool {
+			call, ok := isTimeCall(v, "IsZero")
+			if !ok {
+				return false
+			}
+			_, ok = isFieldLoad(call.Call.Args[0], "ValidReplayer", "lastGC")
+			return ok
+		}, true))
+		if !isZeroG {
+			continue
+		}
+		isIv := func(v ssa.Value) bool { _, ok := isFieldLoad(v, "ValidReplayer", "GCInterval"); return ok }
+		dep := intGuard(fn, st.Block(), isIv, negInf, 1, posInf) || intGuard(fn, st.Block(), isIv, negInf, negInf, 0)
+		c.check(!dep, fnLabel(fn)+":clock-init-unconditional", P.ipos(st), "the GC clock starts on the first Put whatever GCInterval is", "the GC clock is only started under a condition on GCInterval: Puts made while GCInterval is 0 leave it unset, and the first Put after the interval is enabled does not collect")
 	}
 	// doGC under the due test
 	c.check(gcCall != nil && haveDue && factGuards(fn, gcCall.Block(), dueFact), fnLabel(fn)+":gc-when-due", P.pos(fn.Pos()), "Put collects when now - lastGC >= GCInterval says it is due", "Put does not run doGC under the due test (now - lastGC >= GCInterval)")
@@ -2549,6 +3009,30 @@ func r08_6(c *Ctx) {
 		c.check(canonical, name+":canonical#"+itoa(i), P.ipos(call), "a presented ID that is not in the issuer's form (leading zeros) is rejected",
 			"the presented ID is accepted whenever it parses as a decimal number, although the issuer (FormatUint) never writes leading zeros: the never-issued ID \"010\" is treated as the buffered ID 10 and everything after it is replayed")
 	}
+	// (e) manual IDs are compared as EventID values (value and set flag), not as strings: an unset ID must
+	// not match the valid empty ID
+	for _, lf := range lookupFns {
+		for _, g := range append(regionFuncs(lf), lf.AnonFuncs...) {
+			eachInstr(g, func(in ssa.Instruction) {
+				b, ok := in.(*ssa.BinOp)
+				if !ok || (b.Op != token.EQL && b.Op != token.NEQ) {
+					return
+				}
+				isIDString := func(v ssa.Value) bool {
+					for _, sv := range sources(v) {
+						call, ok := sv.(*ssa.Call)
+						if !ok || calleeName(call) != expandName("(messageField).String") {
+							return false
+						}
+					}
+					return len(sources(v)) > 0
+				}
+				if isIDString(b.X) && isIDString(b.Y) {
+					c.bad(name+":id-compared-as-string", P.ipos(b), "buffered and presented IDs are compared as strings: the unset ID (no Last-Event-ID) matches a buffered event whose ID is the valid empty ID, and a brand-new subscriber is sent history")
+				}
+			})
+		}
+	}
 	// (b) evicted only when strictly older
 	isParsed := func(v ssa.Value) (*ssa.Call, bool) {
 		e, ok := v.(*ssa.Extract)
@@ -2616,6 +3100,176 @@ func r08_6(c *Ctx) {
 					c.bad(rn, P.ipos(ret), "q.head (replay everything) is also returned when the presented ID equals the oldest buffered ID: that event is replayed again (duplicate at the resume boundary)")
 				}
 			}
+		}
+	}
+	// (f) ID arithmetic stays 64-bit unsigned until a range check bounded it: a conversion of a value computed
+	// from the parsed IDs to a narrower or signed integer must be dominated by an upper-bound test of that value
+	{
+		k := 0
+		fromParsed := func(v ssa.Value) bool {
+			seen := map[ssa.Value]bool{}
+			var walk func(x ssa.Value) bool
+			walk = func(x ssa.Value) bool {
+				if x == nil || seen[x] {
+					return false
+				}
+				seen[x] = true
+				if _, ok := isParsed(x); ok {
+					return true
+				}
+				switch y := x.(type) {
+				case *ssa.BinOp:
+					return walk(y.X) || walk(y.Y)
+				case *ssa.Convert:
+					return walk(y.X)
+				case *ssa.ChangeType:
+					return walk(y.X)
+				case *ssa.Phi:
+					for _, e := range y.Edges {
+						if walk(e) {
+							return true
+						}
+					}
+				}
+				return false
+			}
+			return walk(v)
+		}
+		for _, g := range lookupRegion {
+			g := g
+			eachInstr(g, func(in ssa.Instruction) {
+				cv, ok := in.(*ssa.Convert)
+				if !ok {
+					return
+				}
+				sb, okS := cv.X.Type().Underlying().(*types.Basic)
+				db, okD := cv.Type().Underlying().(*types.Basic)
+				if !okS || !okD || sb.Info()&types.IsInteger == 0 || db.Info()&types.IsInteger == 0 {
+					return
+				}
+				if !fromParsed(cv.X) {
+					return
+				}
+				wide := func(b *types.Basic) bool {
+					switch b.Kind() {
+					case types.Uint64, types.Uint, types.Uintptr:
+						return true
+					}
+					return false
+				}
+				if wide(db) {
+					return
+				}
+				k++
+				bounded := false
+				xs := exprShape(cv.X, 0)
+				for _, ifi := range ifsIn(g) {
+					cnd := decodeIf(ifi)
+					if cnd.Y == nil {
+						continue
+					}
+					op := cnd.Op
+					switch {
+					case cnd.X == cv.X || exprShape(cnd.X, 0) == xs:
+					case cnd.Y == cv.X || exprShape(cnd.Y, 0) == xs:
+						op = flipOp(op)
+					default:
+						continue
+					}
+					var e int
+					switch op {
+					case token.LSS, token.LEQ:
+						e = cnd.succWhen(true)
+					case token.GEQ, token.GTR:
+						e = cnd.succWhen(false)
+					default:
+						continue
+					}
+					if edgeDominates(ifi.Block(), e, cv.Block()) {
+						bounded = true
+						bound := cnd.Y
+						if cnd.Y == cv.X || exprShape(cnd.Y, 0) == xs {
+							bound = cnd.X
+						}
+						_, isCount := isFieldLoad(stripConvAll(bound), "queue", "count")
+						c.check(isCount, name+":range-check-against-count#"+itoa(k), P.ipos(ifi), "the distance from the oldest buffered ID is compared with the number of buffered events",
+							"the distance from the oldest buffered ID is compared with "+exprShape(bound, 0)+" instead of the number of buffered events (queue.count): while the ring is not full a never-issued ID passes the test and everything buffered is replayed")
+					}
+				}
+				c.check(bounded, name+":narrowing#"+itoa(k), P.ipos(cv), "a value computed from the parsed IDs is converted to "+db.Name()+" only after an upper-bound test of it",
+					"a value computed from the parsed IDs is converted to "+db.Name()+" before any range check: IDs that differ by a multiple of the narrower type's range (or exceed the signed range) are confused, so a never-issued ID is treated as a buffered one")
+			})
+		}
+	}
+	// (g) a position computed from the parsed IDs that is found beyond a bound is brought back by subtracting
+	// that bound (the distance may exceed one slot), not by resetting it to a constant
+	{
+		k := 0
+		derived := func(v ssa.Value) bool {
+			seen := map[ssa.Value]bool{}
+			var walk func(x ssa.Value) bool
+			walk = func(x ssa.Value) bool {
+				if x == nil || seen[x] {
+					return false
+				}
+				seen[x] = true
+				if _, ok := isParsed(x); ok {
+					return true
+				}
+				switch y := x.(type) {
+				case *ssa.BinOp:
+					return walk(y.X) || walk(y.Y)
+				case *ssa.Convert:
+					return walk(y.X)
+				}
+				return false
+			}
+			return walk(v)
+		}
+		for _, g := range lookupRegion {
+			g := g
+			eachInstr(g, func(in ssa.Instruction) {
+				phi, ok := in.(*ssa.Phi)
+				if !ok || len(phi.Edges) != 2 {
+					return
+				}
+				for i := 0; i < 2; i++ {
+					v, other := phi.Edges[i], phi.Edges[1-i]
+					if !derived(v) || v == other {
+						continue
+					}
+					if _, isPhi := v.(*ssa.Phi); isPhi {
+						continue
+					}
+					// the branch that decides between v and its replacement compares v with a bound
+					for _, ifi := range ifsInOnly(g) {
+						cnd := decodeIf(ifi)
+						if cnd.Y == nil || cnd.X != v {
+							continue
+						}
+						if cnd.Op != token.GEQ && cnd.Op != token.GTR && cnd.Op != token.LSS && cnd.Op != token.LEQ && cnd.Op != token.EQL {
+							continue
+						}
+						if !ifi.Block().Dominates(phi.Block()) {
+							continue
+						}
+						k++
+						sub, isSub := other.(*ssa.BinOp)
+						bound := cnd.Y
+						if cnd.Op == token.GTR || cnd.Op == token.LEQ {
+							// v > A-1 is v >= A
+							if bb, ok := bound.(*ssa.BinOp); ok && bb.Op == token.SUB {
+								if k1, isK := constInt(bb.Y); isK && k1 == 1 {
+									bound = bb.X
+								}
+							}
+						}
+						okk := isSub && sub.Op == token.SUB && sub.X == v && exprShape(sub.Y, 0) == exprShape(bound, 0)
+						c.check(okk, name+":wrap-by-subtraction#"+itoa(k), P.ipos(ifi), "a position beyond the bound is reduced by that bound",
+							"a position computed from the IDs and found beyond "+exprShape(cnd.Y, 0)+" is replaced by "+exprShape(other, 0)+" instead of being reduced by the bound: the replay starts at the wrong slot whenever the position lies more than one step past the end of the ring (already received events are sent again)")
+					}
+				}
+			})
 		}
 	}
 	// (c) compared with A, reduced by B  =>  A ≡ B
@@ -2697,7 +3351,7 @@ func r09_8(c *Ctx) {
 		if !inSSEPackage(fn) || fn.Synthetic != "" {
 			continue
 		}
-		eachInstrDeep(fn, func(in ssa.Instruction) {
+		eachInstr(fn, func(in ssa.Instruction) {
 			call, ok := in.(*ssa.Call)
 			if !ok || isQueueCall(call, "resize") == nil || len(call.Call.Args) != 2 {
 				return
@@ -2850,4 +3504,49 @@ func parsedFromHead(call *ssa.Call) bool {
 	}
 	walk(call.Call.Args[0], 0)
 	return found
+}
+
+// isSubscriptionClient: every origin of v (through locals, also captured ones) is a load of a
+// Subscription's Client field.
+func isSubscriptionClient(v ssa.Value) bool {
+	if _, ok := isFieldLoad(v, "Subscription", "Client"); ok {
+		return true
+	}
+	src := sources(v)
+	for _, sv := range src {
+		if _, ok := isFieldLoad(sv, "Subscription", "Client"); !ok {
+			return false
+		}
+	}
+	return len(src) > 0
+}
+
+// grownFromChunks: every origin of v (through phis, locals, inlined helpers and their parameters) is the
+// message's own chunks slice, extended by zero or more appends.
+func grownFromChunks(v ssa.Value, seen map[ssa.Value]bool, depth int) bool {
+	if depth > 12 {
+		return false
+	}
+	src := sources(v)
+	if len(src) == 0 {
+		return false
+	}
+	for _, sv := range src {
+		if seen[sv] {
+			continue
+		}
+		seen[sv] = true
+		if _, ok := isFieldLoad(sv, "Message", "chunks"); ok {
+			continue
+		}
+		if call, ok := sv.(*ssa.Call); ok {
+			if b, ok := call.Call.Value.(*ssa.Builtin); ok && b.Name() == "append" {
+				if grownFromChunks(call.Call.Args[0], seen, depth+1) {
+					continue
+				}
+			}
+		}
+		return false
+	}
+	return true
 }
